@@ -29,6 +29,12 @@ def _jobs(tier):
         for pol in pols:
             for h in short[:5]:
                 deep[(hn, H.hist_name(h), pol, "WALL", "G1")] = dict(spec=core[hn], user=h, policy=pol, clock="WALL")
+    # second episodes under preemption (stale state that survives a reset / re-arming in the wrong lifecycle call)
+    two_deep = [[["reset"], ["step"], ["stop"], ["reset"], ["step"], ["stop"]], [["run"], ["stop"], ["run"], ["stop"]], [["reset"], ["step"], ["reset"], ["step"], ["stop"]]]
+    for hn in ("L1.16-8", "L2") if tier == "quick" else list(core):
+        for pol in pols:
+            for h in two_deep:
+                deep[(hn, H.hist_name(h), pol, "SIM", "G1")] = dict(spec=core[hn], user=h, policy=pol, clock="SIM", rtf=0)
     if tier == "thorough":
         for hn, sp in more.items():
             for pol in pols:
@@ -45,6 +51,8 @@ def _jobs(tier):
             for pol in pols:
                 for clock in ("SIM", "WALL"):
                     wide[(hn, H.hist_name(h), pol, clock, "G1")] = dict(spec=sp, user=h, policy=pol, clock=clock, rtf=0)
+                # throttled simulated clock: sleeping tasks (throttle) survive lifecycle calls
+                wide[(hn, H.hist_name(h), pol, "SIM.rtf8", "G1")] = dict(spec=sp, user=h, policy=pol, clock="SIM", rtf=8)
     g2 = {}
     g2h = [[["run"], ["stop"]], [["reset"], ["step"], ["stop"]], [["reset"], ["stop"]]]
     for hn in ("L0", "L1.16-16"):
@@ -100,7 +108,7 @@ def run(tier, rep):
     some = list(deep.items())[:2]
     for k, j in some:
         rep.sample(dict(job=":".join(map(str, k)), user=j["user"], spec=j["spec"]))
-    rep.section("family", harnesses=sorted({k[0] for k in list(deep) + list(wide)}), policies=["prio(user-first)", "rr", "rev"], clocks=["SIM rtf=0", "WALL (virtual time)"],
+    rep.section("family", harnesses=sorted({k[0] for k in list(deep) + list(wide)}), policies=["prio(user-first)", "rr", "rev"], clocks=["SIM rtf=0", "SIM rtf=8 (throttled, virtual sleeps)", "WALL (virtual time)"],
                 histories_wide=len({k[1] for k in wide}), histories_deep=len({k[1] for k in deep}), quick_slice="wide histories rotated by VERIF_SEED on the non-core harnesses" if tier == "quick" else "full")
     if tier == "quick":
         rep.not_exhaustive("quick tier: d<=1 on core harnesses, d=0 elsewhere, rotated history slice")
